@@ -93,7 +93,15 @@ func genC07(c *Ctx, r *rng.R, i int) {
 	a := gt.Gen(r, cfg)
 	var b *gt.T
 	rel := ""
-	switch r.Intn(9) {
+	switch r.Intn(10) {
+	case 9:
+		// two capsule types made by separate calls with the same name and native type are different types
+		a1, b1 := a.Clone(), a.Clone()
+		pa, pb := gt.Positions(a1), gt.Positions(b1)
+		k := r.Intn(len(pa))
+		*pa[k] = gt.T{K: gt.Cap, CapID: 0}
+		*pb[k] = gt.T{K: gt.Cap, CapID: 2}
+		a, b, rel = a1, b1, "capsule-twin"
 	case 0, 1:
 		b, rel = a.Clone(), "same"
 	case 2, 3, 4:
